@@ -20,6 +20,7 @@ fn dispatch(id: &str, tier: Tier) -> i32 {
     match id {
         "C01" => props::c01::check("C01", tier),
         "C02" => props::c01::check("C02", tier),
+        "C04" => props::c04::check(tier),
         "C05" => props::hist2::check_c05(tier),
         "C09" => props::hist2::check_c09(tier),
         "C10" => props::hist2::check_c10(tier),
@@ -37,6 +38,8 @@ fn dispatch(id: &str, tier: Tier) -> i32 {
         "C15" => props::lowering::check_c15(tier),
         "C21" => props::lowering::check_c21(tier),
         "C22" => props::lowering::check_c22(tier),
+        "C30" => props::c30::check(tier),
+        "C23" => props::c23::check(tier),
         "C24" => props::c24::check(tier),
         "C25" => props::c25::check(tier),
         "C26" => props::c26::check(tier),
@@ -56,6 +59,9 @@ fn replay_dispatch(id: &str, family: &str, case: &serde_json::Value) -> Option<V
         "C05" | "C09" | "C10" | "C11" | "C29" => Some(props::hist2::replay(id, case)),
         "C15" | "C21" | "C22" => Some(props::lowering::replay(id, family, case)),
         "C16" | "C17" | "C18" | "C19" | "C20" => Some(props::instr::replay(case)),
+        "C04" => Some(props::c04::replay(case)),
+        "C30" => Some(props::c30::replay(case)),
+        "C23" => Some(props::c23::replay(case)),
         "C24" => Some(props::c24::replay(case)),
         "C03" => Some(props::c03::replay(family, case)),
         "C12" => Some(props::c12::replay(family, case)),
